@@ -135,6 +135,9 @@ def run_history(root, srv, part, rng):
             part.violation("daemon-crash/" + (">".join(frames[:2]) or "rc%s" % rc),
                            {"input": sc.text(), "summary": (head or err[-300:] or "no END marker")[:300], "log": err[-3000:]})
             return
+        if sched.harness_overflow(events):
+            part.inconclusive.append({"why": "history outgrew the harness's process table"})
+            return
         fails = []
         st = sched.check_maxsimul(events, incs, lambda k, d: fails.append((k, d)))
         # a limited task must not lose or gain occurrences either: every due occurrence gets one spawn, run or no-run
